@@ -1,5 +1,5 @@
 use crate::{
-    fragment::{Bounds, Rect},
+    fragment::{Bounds, Line, Rect},
     Fragment,
 };
 
@@ -57,12 +57,25 @@ fn is_rect(fragments: &[&Fragment]) -> bool {
             let line_b2 = fragments[b2].as_line().expect("expecting a line");
             line_a1.is_touching_aabb_perpendicular(line_b1)
                 && line_a2.is_touching_aabb_perpendicular(line_b2)
+                && meets_at_corners(line_a1, line_a2, line_b1, line_b2)
         } else {
             false
         }
     } else {
         false
     }
+}
+
+/// the lines of a rectangle meet at their end points: every end point of one parallel pair
+/// is an end point of a line of the other pair. Lines that merely touch somewhere along
+/// their length, ie: the rails and rungs of a ladder, do not enclose a rectangle.
+fn meets_at_corners(a1: &Line, a2: &Line, b1: &Line, b2: &Line) -> bool {
+    [a1.start, a1.end, a2.start, a2.end]
+        .iter()
+        .all(|p| b1.has_endpoint(*p) || b2.has_endpoint(*p))
+        && [b1.start, b1.end, b2.start, b2.end]
+            .iter()
+            .all(|p| a1.has_endpoint(*p) || a2.has_endpoint(*p))
 }
 
 /// qualifications:
